@@ -14,6 +14,7 @@ import ast
 from .. import analysis
 from ..astutil import calls_in, call_name, where
 from ..cfg import build_cfg
+from ..dataflow import private_closure
 from ..facts import instance_fields
 from ..fold import Folder, Unfoldable
 import re
@@ -100,6 +101,28 @@ def ret1_rule(prog, rep):
                       "%s returns `%s` of shape %s, not one of %s (e.g. a pass-through keeps foreign types / sub-second parts)"
                       % (name, unparse(r)[:70] if r is not None else "None", sorted(ts), list(allowed)), where(f, rn.ast),
                       witness="a datetime with microseconds / a str for dtype int is stored as is")
+    # int_get: the detour over float() is the fall back for text that int() refused, never the way an exact integer takes
+    ig = dmod.functions.get("int_get")
+    for h in private_closure(ig):
+        hg = build_cfg(h)
+        for n in hg.nodes:
+            for r0 in n.expr_roots():
+                for c in calls_in(r0):
+                    if call_name(c) == "float" and len(c.args) == 1:
+                        arg = unparse(c.args[0])
+                        in_handler = False
+                        for tr in ast.walk(h.node):
+                            if isinstance(tr, ast.Try):
+                                tried = any(isinstance(y, ast.Call) and call_name(y) == "int" and len(y.args) == 1 and unparse(y.args[0]) == arg
+                                            for b in tr.body for y in ast.walk(b))
+                                for hd0 in tr.handlers:
+                                    catches = hd0.type is not None and "ValueError" in unparse(hd0.type)
+                                    if tried and catches and any(y is c for b in hd0.body for y in ast.walk(b)):
+                                        in_handler = True
+                        rep.check(in_handler, "RET-1", "%s: float(%s) only after int(%s) refused it" % (h.name, arg, arg), "inside `except ValueError` of the exact conversion",
+                                  "%s converts through float(%s) on a path where int(%s) was not tried first: an exact integer above 2**53 (a native int, "
+                                  "as the RDF and JSON readers deliver it) is rounded" % (h.short, arg, arg), where(h, c),
+                                  witness="int Property with the value 9007199254740993 comes back as 9007199254740992")
     fd = Folder(prog)
     for nm, want in (("FORMAT_DATE", "%Y-%m-%d"), ("FORMAT_DATETIME", "%Y-%m-%d %H:%M:%S"), ("FORMAT_TIME", "%H:%M:%S")):
         try:
